@@ -28,9 +28,9 @@ RULE = ('Generated experiment frames in both cost scenarios (fixed: pre-period a
 ASSUMPTIONS = ['tails=1 with level < 0.5 ordering failures are classified under the known-finding key one-sided-level-below-half',
                'variable-cost cases with |incremental cost / its posterior scale| < 8 are skipped (ratio of t variables too heavy-tailed)']
 EXHAUSTIVE = {'quick': False, 'thorough': False}
-MINIMA = {'quick': {'fixed_with_cooldown_spend': 15, 'equivariance_extreme_units': 30, 'mixed_cost_cases': 100, 'refits': 80, 'fixed_checked': 120, 'variable_checked': 200, 'equivariance_pairs': 330, 'determinism_pairs': 200,
+MINIMA = {'quick': {'fixed_with_cooldown_spend': 15, 'equivariance_extreme_units': 30, 'equivariance_tiny_cost_unit': 15, 'mixed_cost_cases': 100, 'refits': 80, 'fixed_checked': 120, 'variable_checked': 200, 'equivariance_pairs': 330, 'determinism_pairs': 200,
                     'distinct_nontrivial': 400},
-          'thorough': {'fixed_with_cooldown_spend': 200, 'equivariance_extreme_units': 400, 'mixed_cost_cases': 1500, 'refits': 1200, 'fixed_checked': 2000, 'variable_checked': 3000, 'equivariance_pairs': 5000, 'determinism_pairs': 3000,
+          'thorough': {'fixed_with_cooldown_spend': 200, 'equivariance_extreme_units': 400, 'equivariance_tiny_cost_unit': 200, 'mixed_cost_cases': 1500, 'refits': 1200, 'fixed_checked': 2000, 'variable_checked': 3000, 'equivariance_pairs': 5000, 'determinism_pairs': 3000,
                        'distinct_nontrivial': 6000}}
 N = {'quick': 640, 'thorough': 9000}
 NSIMS = {'quick': 2000, 'thorough': 10000}
@@ -205,6 +205,13 @@ def run_case(spec):
     # design matrix [1, x] as rank deficient - rcond 1e-15 - and silently loses the intercept; see DESIGN 11.2)
     a, b = 2.0 ** (r.randrange(20, 31) - (10 if cost_scale >= 1e3 else 0)), 2.0 ** -r.randrange(20, 31)
     counters['equivariance_extreme_units'] += 1
+  elif scenario == 'fixed' and r.random() < 0.3:
+    # the other way round: cost booked in millions / billions of the unit, so that the incremental cost of the whole
+    # test period is ~1e-6 .. 1e-9 in that unit. Fixed-cost frames only: there the non-incremental cost is exactly 0
+    # at every scale, whereas a variable-cost frame this small falls under the library's documented "approx equal to
+    # zero" scenario test (absolute tolerance) and legitimately turns into a fixed-cost one - not judged.
+    a, b = 2.0 ** -r.randrange(24, 34), 2.0 ** r.randrange(-3, 8)
+    counters['equivariance_tiny_cost_unit'] += 1
   f2 = frame.copy()
   f2['cost'] = f2['cost'] * a
   f2['response'] = f2['response'] * b
